@@ -163,6 +163,11 @@ fn check_doc(doc: &Doc, rep: &mut Report) {
                             let ks = &doc.nodes[p].kids;
                             let pos = ks.iter().position(|&x| x == c).unwrap();
                             let name = doc.key_name(ks[pos - 1]);
+                            const KEYWORDS: [&str; 22] = ["and", "or", "not", "if", "then", "elif", "else", "end", "as", "def", "reduce", "foreach", "try", "catch", "label", "import", "include", "__loc__", "true", "false", "null", "limit"];
+                            if KEYWORDS.contains(&name) {
+                                // takes precedence: `.and` is not a path expression in jq
+                                return "keyword-key";
+                            }
                             if name.is_empty() {
                                 f = "empty-key";
                             } else if !name.is_ascii() {
